@@ -18,8 +18,8 @@
     (d) convolution_chain             transform, pointwise product, inverse transform, scaling ≡ the acyclic convolution
         mul_trunc_sqrt2_val           limbs → split → … → combine = the product, under `FftParams.Sound`
         mul_fft_main_nonmfa_val       … hence for the parameters mpn_mul_fft_main selects (non-MFA path)
-    MFA: fft_radix2_twiddle_bitrev_dft, fft_trunc1_twiddle_prefix, mfa_passes_partial (column pass + row pass = the
-         plain DFT permuted), fft_mfa_first_half_partial (the model's first half matrix = the plain transform permuted)
+    MFA: fft_radix2_twiddle_bitrev_dft, fft_trunc1_twiddle_prefix, mfa_passes_dft (column pass + row pass = the
+         plain DFT permuted), fft_mfa_trunc_sqrt2_permuted_dft (both half matrices of the model = the plain transform, permuted)
 -/
 import MpirProofs.Lemmas.FftXMul
 import MpirProofs.Lemmas.FftXMfaMain
@@ -161,23 +161,16 @@ example : let x := (List.range 130).map (fun i => ((i : Int) + 1) * 12345) ++ Li
     ((ifft_trunc_sqrt2 6 1 130 ((fft_trunc_sqrt2 6 1 130 x).take 130 ++ List.replicate 126 9)).take 130).map
       (fun v => v * 2 ^ (128 - 8) % pOf 64) = x.take 130 := by decide +kernel
 
-/-! ### the matrix Fourier (MFA) variants — partial
+/-! ### the matrix Fourier (MFA) variants
 
-The models of mpir_fft_radix2_twiddle / mpir_fft_trunc1_twiddle / mpir_fft_mfa_trunc_sqrt2 and their inverses exist
-(Model/FftX.lean) and are run against the library on every check (`fftx_mfa`, `fftx_imfa`: every n1, every trunc).
-Proved: what the twiddled column transform computes; its truncated version agrees with it on the first `trunc`
-outputs; the column pass followed by the row pass leaves the DFT in the permutation (row j, column t) ↦ frequency
-j + n2·t; and, through the strided plumbing of the model (column folds with getCol/setCol, row folds), the FIRST HALF
-matrix of `fft_mfa_trunc_sqrt2` holds the values of the plain √2 transform in that permutation
-(`fft_mfa_first_half_partial`).
-
-Full statement (second half and inverse not proved):  for TruncSOk d trunc, 2·n1 ∣ trunc, inputs zero from `trunc` on,
-  el (fft_mfa_trunc_sqrt2 d w n1 trunc xs) (j·n1 + t) ≡ el (fft_full_sqrt2 d w xs) (rev (d+1) (j + n2·t))   j < n2, t < n1
-  el (fft_mfa_trunc_sqrt2 d w n1 trunc xs) (2n + j·n1 + t) ≡ el (fft_full_sqrt2 d w xs) (2n + rev (d+1) (j + n2·t))
-                                                             for the rows j = rev s, s < (trunc − 2n)/n1,
-  and ifft_mfa_trunc_sqrt2 inverts it (4n-fold).
-Missing: the second-half assembly (ingredients proved: `fft_trunc1_twiddle_prefix`, `mfa_passes_partial`, the fold
-lemmas of Lemmas/FftXPlumb.lean) and the inverse direction. -/
+The models of mpir_fft_radix2_twiddle / mpir_fft_trunc1_twiddle / mpir_fft_mfa_trunc_sqrt2 and their inverses
+(Model/FftX.lean) are run against the library on every check (`fftx_mfa`, `fftx_imfa`: every n1, every trunc).
+Proved for the FORWARD transform: what the twiddled column transform computes; its truncated version agrees with it on the
+first `trunc` outputs; the column pass followed by the row pass leaves the DFT in the permutation (row j, column t) ↦
+frequency j + n2·t; and, through the strided plumbing of the model (column folds with getCol/setCol, row folds),
+`fft_mfa_trunc_sqrt2_permuted_dft`: both half matrices hold the values of the plain √2 transform in that permutation.
+Not proved (run only): the inverse ifft_mfa_trunc_sqrt2 (its model and ops exist), the outer/inner variants and
+mpn_mul_mfa_trunc_sqrt2 as a whole. -/
 
 /-- mpir_fft_radix2_twiddle (2n entries of a column, shift w, ws = bits of z, r = first row, c = column, rs = row step):
     position rev(i) holds the DFT value of frequency i times 2^((r + rs·i)·c·ws).  With r = 0, rs = 1 that is the
@@ -211,7 +204,7 @@ example : fft_trunc1_twiddle 2 16 2 0 3 1 6 [1, 2, 3, 4, 5, 6, 7, 8] ≠ fft_rad
     mpir_fft_radix2_twiddle / mpir_fft_radix2 / revbin swaps applied to the extracted columns and rows): row j,
     column t ends up with the value that the plain mpir_fft_radix2 of the same n1·n2 coefficients leaves in position
     rev(j + n2·t) — the same DFT, in a different permutation. -/
-theorem mfa_passes_partial (e1 e2 w : Nat) (xs : List Int) (j t : Nat) (hj : j < 2 ^ (e2 + 1)) (ht : t < 2 ^ (e1 + 1)) :
+theorem mfa_passes_dft (e1 e2 w : Nat) (xs : List Int) (j t : Nat) (hj : j < 2 ^ (e2 + 1)) (ht : t < 2 ^ (e1 + 1)) :
     el (mfaRow e1 e2 w xs j) t ≡
       el (fft_radix2 (e1 + e2 + 1) w xs) (rev (e1 + e2 + 2) (j + 2 ^ (e2 + 1) * t)) [ZMOD pOf (2 ^ (e1 + e2 + 1) * w)] :=
   toZ _ (mfa_passes _ e1 e2 w xs (zmod_two_pow _) j t hj ht)
@@ -222,25 +215,49 @@ example : let x : List Int := [3, 1, 4, 1, 5, 9, 2, 6, 5, 3, 5, 8, 9, 7, 9, 3]
       (List.range 4).flatMap (fun j => (List.range 4).map fun t =>
         el (fft_radix2 3 8 x) (rev 4 (j + 4 * t)) % pOf 64) := by decide +kernel
 
-/-- mpir_fft_mfa_trunc_sqrt2 with n1 = 2^(e1+1) columns, n2 = 2^(e2+1) rows, n = n1·n2/2 (depth e1+e2+1), inputs zero
-    from `trunc` on: after all four loops the entry (row j, column t) of the FIRST HALF matrix is congruent to the value
-    the plain transform (`fft_full_sqrt2`, of which `fft_trunc_sqrt2` computes the first `trunc` outputs) has in
-    position rev(j + n2·t) — the same DFT values, permuted.  `_partial`: the second half matrix is not covered. -/
-theorem fft_mfa_first_half_partial (e1 e2 w trunc : Nat) (xs : List Int) (hlen : xs.length = 4 * 2 ^ (e1 + e2 + 1))
-    (ht : TruncSOk (e1 + e2 + 1) trunc) (hz0 : ∀ j, trunc ≤ j → el xs j = 0) (j t : Nat)
-    (hj : j < 2 ^ (e2 + 1)) (htt : t < 2 ^ (e1 + 1)) :
-    el (fft_mfa_trunc_sqrt2 (e1 + e2 + 1) w (2 ^ (e1 + 1)) trunc xs) (j * 2 ^ (e1 + 1) + t) ≡
-      el (fft_full_sqrt2 (e1 + e2 + 1) w xs) (rev (e1 + e2 + 2) (j + 2 ^ (e2 + 1) * t))
-      [ZMOD pOf (2 ^ (e1 + e2 + 1) * w)] :=
-  toZ _ (fft_mfa_first_half _ e1 e2 w trunc xs hlen ht hz0 (zmod_two_pow _) j t hj htt)
+/-- mpir_fft_mfa_trunc_sqrt2 with n1 = 2^(e1+1) columns, n2 = 2^(e2+1) rows, n = n1·n2/2 (depth e1+e2+1), trunc a multiple of
+    2·n1 in (2n, 4n], inputs zero from `trunc` on.  After the four loops
+    * the entry (row j, column t) of the FIRST half matrix is congruent to the value the plain transform (`fft_full_sqrt2`,
+      of which `fft_trunc_sqrt2` computes the first `trunc` outputs) has in position rev(j + n2·t), for all j < n2, t < n1;
+    * in the SECOND half matrix the same holds (offset 2n on both sides) for the rows j = rev s, s < (trunc − 2n)/n1 — the
+      rows the C transforms ("relevant rows"); these are exactly the positions 2n + rev(j + n2·t) below `trunc`.
+    The matrix Fourier transform computes the same DFT values as the plain one, in the permutation
+    (row j, column t) ↦ rev(j + n2·t). -/
+theorem fft_mfa_trunc_sqrt2_permuted_dft (e1 e2 w trunc : Nat) (xs : List Int)
+    (hlen : xs.length = 4 * 2 ^ (e1 + e2 + 1)) (ht : TruncSOk (e1 + e2 + 1) trunc) (hdiv : 2 * 2 ^ (e1 + 1) ∣ trunc)
+    (hz0 : ∀ j, trunc ≤ j → el xs j = 0) :
+    (∀ j t, j < 2 ^ (e2 + 1) → t < 2 ^ (e1 + 1) →
+      el (fft_mfa_trunc_sqrt2 (e1 + e2 + 1) w (2 ^ (e1 + 1)) trunc xs) (j * 2 ^ (e1 + 1) + t) ≡
+        el (fft_full_sqrt2 (e1 + e2 + 1) w xs) (rev (e1 + e2 + 2) (j + 2 ^ (e2 + 1) * t))
+        [ZMOD pOf (2 ^ (e1 + e2 + 1) * w)]) ∧
+    (∀ s t, s < (trunc - 2 * 2 ^ (e1 + e2 + 1)) / 2 ^ (e1 + 1) → t < 2 ^ (e1 + 1) →
+      el (fft_mfa_trunc_sqrt2 (e1 + e2 + 1) w (2 ^ (e1 + 1)) trunc xs)
+          (2 * 2 ^ (e1 + e2 + 1) + rev (e2 + 1) s * 2 ^ (e1 + 1) + t) ≡
+        el (fft_full_sqrt2 (e1 + e2 + 1) w xs)
+          (2 * 2 ^ (e1 + e2 + 1) + rev (e1 + e2 + 2) (rev (e2 + 1) s + 2 ^ (e2 + 1) * t))
+        [ZMOD pOf (2 ^ (e1 + e2 + 1) * w)]) := by
+  have hN : 2 ^ (e1 + 1) * 2 ^ (e2 + 1) = 2 * 2 ^ (e1 + e2 + 1) := by
+    rw [← pow_add, ← pow_succ']; congr 1; ring
+  have hP : 2 ^ (e1 + e2 + 1 + 1) = 2 * 2 ^ (e1 + e2 + 1) := by rw [pow_succ]; ring
+  refine ⟨fun j t hj htt => toZ _ (fft_mfa_first_half _ e1 e2 w trunc xs hlen ht hz0 (zmod_two_pow _) j t hj htt), ?_⟩
+  intro s t hs htt
+  have := fft_mfa_second_half (Int.castRingHom (ZMod (2 ^ (2 ^ (e1 + e2 + 1) * w) + 1))) e1 e2 w trunc xs hlen ht
+    (truncOk_of_dvd e1 e2 trunc ht hdiv) hz0 (zmod_two_pow _) s t hs htt
+  rw [hN, hP] at this
+  exact toZ _ this
 
--- non-vacuity: depth 3 (n = 8, 32 coefficients modulo 2^64+1, w = 8), n1 = 4, n2 = 4, trunc = 24
+-- non-vacuity: depth 3 (n = 8, 32 coefficients modulo 2^64+1, w = 8), n1 = 4, n2 = 4, trunc = 24 (trunc2 = 2)
 example : TruncSOk 3 24 := by unfold TruncSOk; decide
 example : let x : List Int := (List.range 24).map (fun i => ((i : Int) + 3) * 1000003) ++ List.replicate 8 0
     (List.range 4).flatMap (fun j => (List.range 4).map fun t =>
         el (fft_mfa_trunc_sqrt2 3 8 4 24 x) (j * 4 + t) % pOf 64) =
       (List.range 4).flatMap (fun j => (List.range 4).map fun t =>
         el (fft_full_sqrt2 3 8 x) (rev 4 (j + 4 * t)) % pOf 64) := by decide +kernel
+example : let x : List Int := (List.range 24).map (fun i => ((i : Int) + 3) * 1000003) ++ List.replicate 8 0
+    (List.range 2).flatMap (fun s => (List.range 4).map fun t =>
+        el (fft_mfa_trunc_sqrt2 3 8 4 24 x) (16 + rev 2 s * 4 + t) % pOf 64) =
+      (List.range 2).flatMap (fun s => (List.range 4).map fun t =>
+        el (fft_full_sqrt2 3 8 x) (16 + rev 4 (rev 2 s + 4 * t)) % pOf 64) := by decide +kernel
 
 /-! ### (d) the convolution theorem as the multiplier uses it -/
 
